@@ -1032,3 +1032,325 @@ Qed.
 Theorem our_open_roundtrip c :
   Forall (fun f : fam => 0 <= snd f < 256) (c_families c) -> dec_open (enc_open (open_of c)) = Ok (open_of c).
 Proof. intros H. apply open_roundtrip, our_open_wf, H. Qed.
+
+(* ------------------------------------------------------------------ total decoder: any byte string *)
+
+Definition byte (x : Z) : Prop := 0 <= x < 256.
+Definition bytes (l : list Z) : Prop := Forall byte l.
+
+Definition only_n20 {A} (r : res A) : Prop := match r with Ok _ => True | Notify a b => a = 2 /\ b = 0 end.
+
+Lemma parse_ap_err : forall n d, (length d <= n)%nat -> only_n20 (parse_ap d).
+Proof.
+  induction n as [|n IH]; intros d Hn.
+  - destruct d; [exact I | cbn in Hn; lia].
+  - destruct d as [|a1 [|a2 [|s [|sr rest]]]]; cbn [parse_ap]; try exact I; try (split; reflexivity).
+    specialize (IH rest ltac:(cbn in Hn; lia)). destruct (parse_ap rest); [exact I | exact IH].
+Qed.
+Lemma parse_nh_err : forall n d, (length d <= n)%nat -> only_n20 (parse_nh d).
+Proof.
+  induction n as [|n IH]; intros d Hn.
+  - destruct d; [exact I | cbn in Hn; lia].
+  - destruct d as [|a1 [|a2 [|x [|s [|h1 [|h2 rest]]]]]]; cbn [parse_nh]; try exact I; try (split; reflexivity).
+    specialize (IH rest ltac:(cbn in Hn; lia)). destruct (parse_nh rest); [exact I | exact IH].
+Qed.
+Lemma parse_pl_ok : forall n d, (length d <= n)%nat -> bytes d ->
+  match parse_pl d with Ok l => Forall (fun e : fam * Z => 0 <= snd e) l | Notify a b => a = 2 /\ b = 0 end.
+Proof.
+  induction n as [|n IH]; intros d Hn Hb.
+  - destruct d; [constructor | cbn in Hn; lia].
+  - destruct d as [|a1 [|a2 [|s [|l1 [|l2 rest]]]]]; cbn [parse_pl]; try constructor; try (split; reflexivity).
+    unfold bytes in Hb. repeat (apply Forall_cons_iff in Hb; let H := fresh "B" in destruct Hb as [H Hb]).
+    specialize (IH rest ltac:(cbn in Hn; lia) Hb). destruct (parse_pl rest); [|exact IH].
+    constructor; [cbn [snd]; unfold byte in *; lia | exact IH].
+Qed.
+
+(* what the decoder guarantees about a capability it returns *)
+Definition dwf (c : cap) : Prop :=
+  match c with
+  | CapMP f => 0 <= snd f < 256
+  | CapGraceful _ t _ => 0 <= t < 4096
+  | CapPathsLimit l => Forall (fun e => 0 <= snd e) l
+  | CapOther code d => parse_cap code d = Ok (CapOther code d)
+  | _ => True
+  end.
+
+Lemma parse_cap_total code d : bytes d ->
+  match parse_cap code d with Ok c => dwf c | Notify a b => a = 2 /\ b = 0 end.
+Proof.
+  intros Hb. unfold parse_cap.
+  repeat match goal with |- context [if ?c =? ?k then _ else _] => destruct (c =? k) eqn:? end.
+  - destruct d as [|a1 [|a2 [|x [|s rest]]]]; try (split; reflexivity). cbn [dwf snd].
+    unfold bytes in Hb. repeat (apply Forall_cons_iff in Hb; let H := fresh "B" in destruct Hb as [H Hb]). exact B2.
+  - destruct d as [|a [|b [|c [|e [|? ?]]]]]; try (split; reflexivity); exact I.
+  - pose proof (parse_ap_err _ d (le_n _)) as H. destruct (parse_ap d); [exact I | exact H].
+  - pose proof (parse_nh_err _ d (le_n _)) as H. destruct (parse_nh d); [exact I | exact H].
+  - exact I.
+  - exact I.
+  - exact I.
+  - destruct d as [|r1 [|r2 rest]]; try (split; reflexivity).
+    pose proof (parse_ap_err _ rest (le_n _)) as H. destruct (parse_ap rest); [|exact H].
+    cbn [dwf]. change (GR_TIME_MASK + 1) with 4096. apply Z.mod_pos_bound. reflexivity.
+  - destruct d as [|l1 rest]; [split; reflexivity|].
+    destruct (_ <? _); [split; reflexivity|]. cbv zeta. destruct (_ <? _); [split; reflexivity | exact I].
+  - destruct d as [|l1 rest]; [split; reflexivity|]. destruct (_ <? _); [split; reflexivity | exact I].
+  - pose proof (parse_pl_ok _ d (le_n _) Hb) as H. destruct (parse_pl d); exact H.
+  - cbn [dwf]. unfold parse_cap.
+    repeat match goal with H : (_ =? _) = false |- _ => rewrite H; clear H end. reflexivity.
+Qed.
+
+(* normal form: tuples the encoder leaves out (ADD-PATH Send/Receive 0, paths-limit 0) removed *)
+Definition norm_cap (c : cap) : cap :=
+  match c with
+  | CapAddPath l => CapAddPath (filter (fun e => negb (snd e =? 0)) l)
+  | CapPathsLimit l => CapPathsLimit (filter (fun e => 0 <? snd e) l)
+  | _ => c
+  end.
+Definition norm_open (o : open) : open :=
+  {| o_version := o_version o; o_asn := o_asn o; o_hold := o_hold o; o_rid := o_rid o; o_caps := map norm_cap (o_caps o) |}.
+
+Lemma filter_idem {A} (p : A -> bool) l : filter p (filter p l) = filter p l.
+Proof.
+  induction l as [|x l IH]; cbn; [reflexivity|]. destruct (p x) eqn:H; cbn; [rewrite H, IH|]; auto.
+Qed.
+
+Lemma enc_norm_cap c : enc_cap (norm_cap c) = enc_cap c.
+Proof. destruct c; cbn [norm_cap enc_cap]; try reflexivity; now rewrite filter_idem. Qed.
+
+Lemma wf_norm_cap c : dwf c -> wf_cap (norm_cap c).
+Proof.
+  destruct c; cbn [dwf norm_cap wf_cap]; intros H; try exact H; try exact I.
+  - apply Forall_forall. intros e He. apply filter_In in He. destruct He as [_ He].
+    apply negb_true_iff, Z.eqb_neq in He. exact He.
+  - apply Forall_forall. intros e He. apply filter_In in He. destruct He as [_ He]. apply Z.ltb_lt. exact He.
+Qed.
+
+Lemma enc_norm_open o : enc_open (norm_open o) = enc_open o.
+Proof.
+  unfold enc_open, norm_open. cbn [o_version o_asn o_hold o_rid o_caps]. rewrite map_map.
+  do 5 f_equal. apply map_ext. intros c. apply enc_norm_cap.
+Qed.
+
+Definition allowed_refusal {A} (r : res A) : Prop :=
+  match r with Ok _ => True | Notify a b => In (a, b) [(1, 2); (2, 0); (2, 1); (2, 5)] end.
+
+Lemma bytes_firstn n l : bytes l -> bytes (firstn n l).
+Proof. unfold bytes. revert l. induction n; intros [|x l] H; cbn; try constructor; inversion H; subst; auto. Qed.
+Lemma bytes_skipn n l : bytes l -> bytes (skipn n l).
+Proof. unfold bytes. revert l. induction n; intros [|x l] H; cbn; try constructor; inversion H; subst; auto. Qed.
+
+Lemma kv1_props d k v rest : kv1 d = Some (k, v, rest) -> bytes d ->
+  (length rest < length d)%nat /\ bytes v /\ bytes rest.
+Proof.
+  unfold kv1. destruct d as [|k0 [|l r]]; try discriminate. destruct (_ <? _); [discriminate|].
+  intros H Hb. inversion H; subst. unfold bytes in Hb.
+  apply Forall_cons_iff in Hb. destruct Hb as [_ Hb]. apply Forall_cons_iff in Hb. destruct Hb as [_ Hb].
+  repeat split; [rewrite skipn_length; cbn [length]; lia | apply bytes_firstn; exact Hb | apply bytes_skipn; exact Hb].
+Qed.
+Lemma kv2_props d k v rest : kv2 d = Some (k, v, rest) -> bytes d ->
+  (length rest < length d)%nat /\ bytes v /\ bytes rest.
+Proof.
+  unfold kv2. destruct d as [|k0 [|h [|l r]]]; try discriminate. destruct (_ <? _); [discriminate|].
+  intros H Hb. inversion H; subst. unfold bytes in Hb.
+  do 3 (apply Forall_cons_iff in Hb; destruct Hb as [_ Hb]).
+  repeat split; [rewrite skipn_length; cbn [length]; lia | apply bytes_firstn; exact Hb | apply bytes_skipn; exact Hb].
+Qed.
+
+Lemma dec_capvals_total : forall fuel v, (length v <= fuel)%nat -> bytes v ->
+  match dec_capvals fuel v with Ok l => Forall dwf l | Notify a b => a = 2 /\ b = 0 end.
+Proof.
+  induction fuel as [|fuel IH]; intros v Hf Hb.
+  - destruct v; [constructor | cbn in Hf; lia].
+  - destruct v as [|x v']; [constructor|]. set (v := x :: v') in *. cbn [dec_capvals]. unfold v at 1.
+    destruct (kv1 v) as [[[code cv] rest]|] eqn:Hk; [|split; reflexivity].
+    destruct (kv1_props _ _ _ _ Hk Hb) as (Hlen & Hcv & Hrest).
+    pose proof (parse_cap_total code cv Hcv) as Hp. destruct (parse_cap code cv) as [c|a b]; [|exact Hp].
+    specialize (IH rest ltac:(lia) Hrest). destruct (dec_capvals fuel rest); [constructor; assumption | exact IH].
+Qed.
+
+Lemma unknown_param_allowed : In (2, UNKNOWN_PARAM_SUBCODE) [(2, 0); (2, 5); (2, 4)].
+Proof. vm_compute. repeat (first [left; reflexivity | right]). Qed.
+
+Lemma dec_params_total ext : forall fuel d, (length d <= fuel)%nat -> bytes d ->
+  match dec_params ext fuel d with Ok l => Forall dwf l | Notify a b => In (a, b) [(2, 0); (2, 5); (2, 4)] end.
+Proof.
+  induction fuel as [|fuel IH]; intros d Hf Hb.
+  - destruct d; [constructor | cbn in Hf; lia].
+  - destruct d as [|x d']; [constructor|]. set (d := x :: d') in *. cbn [dec_params]. unfold d at 1.
+    assert (Hkv : forall k v rest, (if ext then kv2 d else kv1 d) = Some (k, v, rest) ->
+                  (length rest < length d)%nat /\ bytes v /\ bytes rest).
+    { intros k v rest H. destruct ext; [eapply kv2_props | eapply kv1_props]; eassumption. }
+    destruct (if ext then kv2 d else kv1 d) as [[[key v] rest]|]; [|left; reflexivity].
+    destruct (Hkv _ _ _ eq_refl) as (Hlen & Hv & Hrest).
+    destruct (key =? PARAM_AUTH); [right; left; reflexivity|].
+    destruct (key =? PARAM_CAPABILITIES); [|exact unknown_param_allowed].
+    pose proof (dec_capvals_total (length v) v (le_n _) Hv) as Hc.
+    destruct (dec_capvals (length v) v) as [l1|a b]; [|destruct Hc as [-> ->]; left; reflexivity].
+    specialize (IH rest ltac:(lia) Hrest). destruct (dec_params ext fuel rest); [apply Forall_app; split; assumption | exact IH].
+Qed.
+
+Lemma dec_optparams_total d : bytes d ->
+  match dec_optparams d with Ok l => Forall dwf l | Notify a b => In (a, b) [(2, 0); (2, 5); (2, 4)] end.
+Proof.
+  intros Hb. unfold dec_optparams. destruct d as [|ol t]; [constructor|].
+  destruct (_ && _); [left; reflexivity|].
+  destruct (_ && _).
+  - destruct (_ <? _); [left; reflexivity|]. cbv zeta.
+    apply dec_params_total; [apply le_n | apply bytes_firstn, bytes_skipn; exact Hb].
+  - destruct (_ <? _); [left; reflexivity|]. cbv zeta.
+    apply dec_params_total; [apply le_n|]. apply bytes_firstn.
+    unfold bytes in *. apply Forall_cons_iff in Hb. tauto.
+Qed.
+
+(* Any byte string is either refused with a defined error (Bad Message Length 1/2, OPEN error 2/0, 2/1, 2/4, 2/5)
+   or decoded into an OPEN whose encoding decodes to its normal form, a fixed point of encode-decode. *)
+Theorem dec_open_total b : bytes b ->
+  match dec_open b with
+  | Notify a c => In (a, c) [(1, 2); (2, 0); (2, 1); (2, 4); (2, 5)]
+  | Ok o => dec_open (enc_open o) = Ok (norm_open o)
+            /\ dec_open (enc_open (norm_open o)) = Ok (norm_open o)
+  end.
+Proof.
+  intros Hb. unfold dec_open.
+  destruct (_ <? _); [left; reflexivity|].
+  destruct (nth 0 b 0 =? BGP_VERSION) eqn:Hv; cbn [negb]; [|right; right; left; reflexivity].
+  pose proof (dec_optparams_total (skipn (Z.to_nat OPEN_HEADER_SIZE) b) (bytes_skipn _ _ Hb)) as Hp.
+  destruct (dec_optparams (skipn (Z.to_nat OPEN_HEADER_SIZE) b)) as [caps|a c].
+  - set (o := {| o_version := nth 0 b 0; o_asn := rd16 (skipn 1 b); o_hold := rd16 (skipn 3 b);
+                 o_rid := rd32 (skipn 5 b); o_caps := caps |}).
+    assert (Hwf : wf_open (norm_open o)).
+    { split; [cbn; apply Z.eqb_eq; exact Hv|]. cbn [norm_open o_caps o]. apply Forall_map.
+      eapply Forall_impl; [|exact Hp]. intros c. apply wf_norm_cap. }
+    split; [rewrite <- enc_norm_open|]; apply open_roundtrip; exact Hwf.
+  - destruct Hp as [H|[H|[H|[]]]]; inversion H; subst; cbn; tauto.
+Qed.
+
+(* ------------------------------------------------------------------ the encoding is a byte string *)
+
+Ltac bl := unfold bytes; repeat (first [apply Forall_nil | apply Forall_cons]); fold bytes.
+Lemma byte_const x : (0 <=? x) && (x <? 256) = true -> byte x.
+Proof. intros H. apply andb_true_iff in H. destruct H as [H1 H2]. apply Z.leb_le in H1. apply Z.ltb_lt in H2. split; assumption. Qed.
+
+Lemma byte_div x : 0 <= x < 65536 -> byte (x / 256).
+Proof. intros H. unfold byte. split; [apply Z.div_pos; lia | apply Z.div_lt_upper_bound; lia]. Qed.
+Lemma byte_mod x : byte (x mod 256).
+Proof. unfold byte. apply Z.mod_pos_bound. reflexivity. Qed.
+Lemma bytes_be16 x : 0 <= x < 65536 -> bytes (be16 x).
+Proof. intros H. unfold be16. bl; [apply byte_div; exact H | apply byte_mod]. Qed.
+Lemma bytes_be32 x : 0 <= x < 4294967296 -> bytes (be32 x).
+Proof.
+  intros H. unfold be32. bl; try apply byte_mod.
+  unfold byte. split; [apply Z.div_pos; lia | apply Z.div_lt_upper_bound; lia].
+Qed.
+Lemma bytes_app a b : bytes a -> bytes b -> bytes (a ++ b).
+Proof. intros Ha Hb. apply Forall_app. split; assumption. Qed.
+Lemma bytes_flat_map {A} (g : A -> list Z) l : Forall (fun x => bytes (g x)) l -> bytes (flat_map g l).
+Proof. induction 1; cbn [flat_map]; [constructor | apply bytes_app; assumption]. Qed.
+
+Definition u16 (x : Z) : Prop := 0 <= x < 65536.
+(* values that fit their wire fields *)
+Definition fits (c : cap) : Prop :=
+  match c with
+  | CapMP f => u16 (fst f) /\ byte (snd f)
+  | CapASN4 a => 0 <= a < 4294967296
+  | CapAddPath l => Forall (fun e => u16 (fst (fst e)) /\ byte (snd (fst e)) /\ byte (snd e)) l
+  | CapNextHop l => Forall (fun n => u16 (fst (fst n)) /\ byte (snd (fst n)) /\ u16 (snd n)) l
+  | CapGraceful flag time l =>
+      0 <= flag < 16 /\ 0 <= time < 4096 /\ Forall (fun e => u16 (fst (fst e)) /\ byte (snd (fst e)) /\ byte (snd e)) l
+  | CapHostName h d => bytes h /\ bytes d /\ len h < 256 /\ len d < 256
+  | CapSoftware v => bytes v /\ len v < 256
+  | CapPathsLimit l => Forall (fun e => u16 (fst (fst e)) /\ byte (snd (fst e)) /\ u16 (snd e)) l
+  | CapOther code d => byte code /\ bytes d
+  | _ => True
+  end.
+
+Lemma len_byte_nonneg l : 0 <= len l. Proof. apply len_nonneg. Qed.
+
+Lemma fits_bytes c : fits c -> byte (fst (enc_cap c)) /\ bytes (snd (enc_cap c)).
+Proof.
+  destruct c as [[a s]|a|l|l| | | |flag time l|h d|v|l|code data]; cbn [fits enc_cap fst snd]; intros H;
+    (split; [try (apply byte_const; reflexivity)|]); try apply Forall_nil.
+  - destruct H as [H1 H2]. cbn [fst snd] in *. apply bytes_app; [apply bytes_be16; exact H1|].
+    unfold be16. bl; [|apply byte_mod]. unfold byte in *. rewrite Z.div_small by lia. lia.
+  - apply bytes_be32; exact H.
+  - apply bytes_flat_map. apply Forall_forall. intros e He. apply filter_In in He. destruct He as [He _].
+    rewrite Forall_forall in H. destruct (H e He) as (H1 & H2 & H3). unfold enc_ap_entry.
+    apply bytes_app; [apply bytes_be16; exact H1 | bl; assumption].
+  - apply bytes_flat_map. eapply Forall_impl; [|exact H]. intros [[a s] h] (H1 & H2 & H3). cbn [fst snd] in *.
+    unfold enc_nh_entry. apply bytes_app; [apply bytes_be16; exact H1|].
+    apply bytes_app; [bl; [unfold byte; lia | exact H2] | apply bytes_be16; exact H3].
+  - destruct H as (H1 & H2 & H3). change (GR_TIME_MASK + 1) with 4096. apply bytes_app.
+    + apply bytes_be16. rewrite Z.mod_small by exact H2. unfold u16. lia.
+    + apply bytes_flat_map. eapply Forall_impl; [|exact H3]. intros e (E1 & E2 & E3). unfold enc_ap_entry.
+      apply bytes_app; [apply bytes_be16; exact E1 | bl; assumption].
+  - destruct H as (H1 & H2 & H3 & H4).
+    apply Forall_cons; [unfold byte; pose proof (len_nonneg h); lia|]. apply bytes_app; [exact H1|].
+    apply Forall_cons; [unfold byte; pose proof (len_nonneg d); lia | exact H2].
+  - destruct H as (H1 & H2). apply Forall_cons; [unfold byte; pose proof (len_nonneg v); lia | exact H1].
+  - apply bytes_flat_map. apply Forall_forall. intros e He. apply filter_In in He. destruct He as [He _].
+    rewrite Forall_forall in H. destruct (H e He) as (H1 & H2 & H3). unfold enc_pl_entry.
+    apply bytes_app; [apply bytes_be16; exact H1|]. apply bytes_app; [bl; exact H2 | apply bytes_be16; exact H3].
+  - exact (proj1 H).
+  - exact (proj2 H).
+Qed.
+
+(* an OPEN that fits the wire: fields in range, every capability value at most 255 octets, and the optional
+   parameters at most 65535 octets in the RFC 9072 encoding *)
+Definition fits_open (o : open) : Prop :=
+  byte (o_version o) /\ u16 (o_asn o) /\ u16 (o_hold o) /\ 0 <= o_rid o < 4294967296
+  /\ Forall (fun c => fits c /\ len (snd (enc_cap c)) <= 253) (o_caps o)
+  /\ len (flat_map enc_param2 (map enc_cap (o_caps o))) <= 65535.
+
+Lemma bytes_params1 raws :
+  Forall (fun r => byte (fst r) /\ bytes (snd r) /\ len (snd r) <= 253) raws -> bytes (flat_map enc_param1 raws).
+Proof.
+  intros H. apply bytes_flat_map. eapply Forall_impl; [|exact H]. intros r (H1 & H2 & H3).
+  unfold enc_param1. pose proof (len_nonneg (snd r)).
+  apply bytes_app; [|exact H2]. bl; try (apply byte_const; reflexivity); unfold byte in *; lia.
+Qed.
+Lemma bytes_params2 raws :
+  Forall (fun r => byte (fst r) /\ bytes (snd r) /\ len (snd r) <= 253) raws -> bytes (flat_map enc_param2 raws).
+Proof.
+  intros H. apply bytes_flat_map. eapply Forall_impl; [|exact H]. intros r (H1 & H2 & H3).
+  unfold enc_param2. pose proof (len_nonneg (snd r)).
+  apply bytes_app; [bl; apply byte_const; reflexivity|].
+  apply bytes_app; [apply bytes_be16; unfold u16; lia|].
+  apply bytes_app; [|exact H2]. bl; unfold byte in *; lia.
+Qed.
+
+Theorem enc_open_bytes o : fits_open o -> bytes (enc_open o).
+Proof.
+  intros (Hv & Ha & Hh & Hr & Hc & Hl). unfold enc_open.
+  assert (Hraws : Forall (fun r => byte (fst r) /\ bytes (snd r) /\ len (snd r) <= 253) (map enc_cap (o_caps o))).
+  { apply Forall_map. eapply Forall_impl; [|exact Hc]. intros c [Hf Hlen].
+    destruct (fits_bytes c Hf) as [H1 H2]. split; [exact H1 | split; [exact H2 | exact Hlen]]. }
+  apply bytes_app; [bl; exact Hv|].
+  apply bytes_app; [apply bytes_be16; exact Ha|]. apply bytes_app; [apply bytes_be16; exact Hh|].
+  apply bytes_app; [apply bytes_be32; exact Hr|].
+  unfold enc_optparams. pose proof (len_nonneg (flat_map enc_param1 (map enc_cap (o_caps o)))) as Hn.
+  destruct (_ <? _) eqn:Hlt.
+  - apply Z.ltb_lt in Hlt. unfold OPEN_PARAM_LEN_MAX in Hlt. apply Forall_cons; [unfold byte; lia | apply bytes_params1; exact Hraws].
+  - apply bytes_app; [bl; apply byte_const; reflexivity|].
+    pose proof (len_nonneg (flat_map enc_param2 (map enc_cap (o_caps o)))).
+    apply bytes_app; [apply bytes_be16; unfold u16; lia | apply bytes_params2; exact Hraws].
+Qed.
+
+(* an optional parameter that is neither Capabilities nor the deprecated Authentication is answered with
+   the subcode the tree uses (Gen_Registry.UNKNOWN_PARAM_SUBCODE; RFC 4271 6.2 requires 4) *)
+Theorem unknown_param_refused fixed key v rest :
+  length fixed = 9%nat -> nth 0 fixed 0 = BGP_VERSION -> key <> PARAM_AUTH -> key <> PARAM_CAPABILITIES ->
+  key <> EXTENDED_LENGTH -> len (key :: len v :: v ++ rest) < 255 ->
+  dec_open (fixed ++ len (key :: len v :: v ++ rest) :: key :: len v :: v ++ rest) = Notify 2 UNKNOWN_PARAM_SUBCODE.
+Proof.
+  intros Hf Hv Hk1 Hk2 Hk3 Hl. unfold dec_open.
+  set (p := key :: len v :: v ++ rest) in *.
+  assert (len (fixed ++ len p :: p) <? OPEN_MINIMUM_BODY_SIZE = false) as ->.
+  { apply Z.ltb_ge. rewrite len_app, len_cons. unfold len at 1. rewrite Hf. pose proof (len_nonneg p). unfold OPEN_MINIMUM_BODY_SIZE. lia. }
+  assert (nth 0 (fixed ++ len p :: p) 0 = BGP_VERSION) as -> by (rewrite app_nth1 by lia; exact Hv).
+  rewrite Z.eqb_refl. cbn [negb]. change (Z.to_nat OPEN_HEADER_SIZE) with 9%nat.
+  rewrite <- Hf, skipn_app, skipn_all, Nat.sub_diag. cbn [app skipn]. unfold dec_optparams.
+  assert (len p =? EXTENDED_LENGTH = false) as -> by (apply Z.eqb_neq; unfold EXTENDED_LENGTH; lia).
+  cbn [andb]. rewrite len_cons, Z.ltb_irrefl. cbv zeta. rewrite firstn_len_self.
+  unfold p. cbn [length dec_params]. rewrite kv1_enc.
+  apply Z.eqb_neq in Hk1. apply Z.eqb_neq in Hk2. rewrite Hk1, Hk2. reflexivity.
+Qed.
